@@ -6,6 +6,7 @@ CONSTANTS
   SAttrs = {"a"}
   SVals = {1, 2}
   SDates = {10, 20}
+  ClaimSigners = {1, 2}
   DelDates = {25}
   DelSigners = {1}
   MixDeletes = TRUE
@@ -13,5 +14,6 @@ CONSTANTS
   Depth = 2
   MinItems = 2
   QTimes = {0, 5, 10, 15, 20, 25}
+  QSigners = {0, 1, 2}
 INVARIANT Emit
 CHECK_DEADLOCK FALSE
